@@ -1,3 +1,5 @@
+# SUPERSEDED: this comparison now runs inside `./check` (corr/c05.py registry_tie), through the driver binary and seeded from ctx.rng.
+# The stand-alone version below is kept for reference only: it depends on scratch files under /tmp and on a Lean main that no longer exists.
 import sys, subprocess, struct, random
 sys.dont_write_bytecode = True
 sys.path.insert(0, '/repo'); sys.path.insert(0, '/verif/harness')
